@@ -173,6 +173,17 @@ func (p *Prog) errEdgeKind(e Edge, x *errCtx) int {
 // instruction matching forbid (the publish point) and without reaching a
 // success exit.
 func (c *Ctx) ErrHandled(key, fname string, m IM, forbid IM, min int, desc, why string) {
+	c.errHandled(key, fname, m, forbid, min, desc, why, false)
+}
+
+// ErrStops (K7, handlers without an error result): on every path on which the
+// error is non-nil no instruction matching forbid is reached; plain returns
+// are fine (the handler has answered).
+func (c *Ctx) ErrStops(key, fname string, m IM, forbid IM, min int, desc, why string) {
+	c.errHandled(key, fname, m, forbid, min, desc, why, true)
+}
+
+func (c *Ctx) errHandled(key, fname string, m IM, forbid IM, min int, desc, why string, stopsOnly bool) {
 	rule := "K7 ErrHandled"
 	fn := c.F(fname)
 	if !c.need(key, rule, desc, fn, fname) {
@@ -200,7 +211,7 @@ func (c *Ctx) ErrHandled(key, fname string, m IM, forbid IM, min int, desc, why 
 				return true
 			}
 			r, ok := i.(*ssa.Return)
-			if !ok {
+			if !ok || stopsOnly {
 				return false
 			}
 			if c.P.ClassifyReturn(r) == retFailure {
